@@ -328,8 +328,9 @@ Proof.
   - repeat split; try reflexivity; try assumption.
 Qed.
 
-Lemma chars_run : forall bs v, mg_full v -> md_awm (v_md v) = true ->
-  forallb printable bs = true ->
+(* any glyph other than DEL occupies one cell (the code points a UTF-8 front end delivers included) *)
+Lemma chars_run_g : forall bs v, mg_full v -> md_awm (v_md v) = true ->
+  forallb (fun b => negb (b =? 127)) bs = true ->
   (pend v = false \/ bs = []) -> 0 <= col v -> col v + Z.of_nat (length bs) <= v_cols v ->
   same_frame v (vt_run (chars bs) v) /\ row (vt_run (chars bs) v) = row v /\
   (match bs with
@@ -350,7 +351,7 @@ Proof.
     cbn [length] in Hlen. rewrite Nat2Z.inj_succ in Hlen.
     unfold chars. cbn [map]. rewrite vt_run_cons. fold (chars bs).
     assert (Hst : vt_step v (TChar b) = vt_putc b v).
-    { cbn [vt_step]. unfold printable in Hb. destruct (b =? 127) eqn:E; [lia|reflexivity]. }
+    { cbn [vt_step]. destruct (b =? 127) eqn:E; [discriminate Hb|reflexivity]. }
     rewrite Hst.
     destruct (putc_run b v Hm Hawm Hp ltac:(lia)) as (Hf & Hrow & Hcol & Hg).
     set (v1 := vt_putc b v) in *.
@@ -396,6 +397,24 @@ Proof.
         -- destruct ((y =? row v) && (col v <=? x) && (x <? col v + 1)) eqn:E2; [|lia].
            replace (x - col v) with 0 by lia. reflexivity.
         -- destruct ((y =? row v) && (col v <=? x) && (x <? col v + 1)) eqn:E2; [lia|]. reflexivity.
+Qed.
+
+Lemma chars_run : forall bs v, mg_full v -> md_awm (v_md v) = true ->
+  forallb printable bs = true ->
+  (pend v = false \/ bs = []) -> 0 <= col v -> col v + Z.of_nat (length bs) <= v_cols v ->
+  same_frame v (vt_run (chars bs) v) /\ row (vt_run (chars bs) v) = row v /\
+  (match bs with
+   | [] => v_cur (vt_run (chars bs) v) = v_cur v
+   | _ :: _ => if col v + Z.of_nat (length bs) <? v_cols v
+               then col (vt_run (chars bs) v) = col v + Z.of_nat (length bs) /\ pend (vt_run (chars bs) v) = false
+               else col (vt_run (chars bs) v) = v_cols v - 1 /\ pend (vt_run (chars bs) v) = true
+   end) /\
+  forall y x, v_grid (vt_run (chars bs) v) y x =
+              if (y =? row v) && (col v <=? x) && (x <? col v + Z.of_nat (length bs))
+              then mkCell (nth (Z.to_nat (x - col v)) bs 0) (v_sgr v) else v_grid v y x.
+Proof.
+  intros bs v Hm Hawm Hpr. apply chars_run_g; try assumption.
+  rewrite forallb_forall in *. intros b Hb. specialize (Hpr b Hb). unfold printable in Hpr. lia.
 Qed.
 
 Lemma cursor_eqb_intro : forall a r c p,
